@@ -586,10 +586,10 @@ def run(ctx):
         scenarios = [x["scenario"] for x in [r["replay"]] + r.get("more", []) if "scenario" in x]
     else:
         scenarios = regression_corpus() + fs_product()
-        scenarios += gen_config_scenarios(rng, 160, 80 if quick else 2500, exhaustive_single=not quick)
-        scenarios += gen_currency_scenarios(rng, 90 if quick else 2000)
+        scenarios += gen_config_scenarios(rng, 110, 50 if quick else 2500, exhaustive_single=not quick)
+        scenarios += gen_currency_scenarios(rng, 60 if quick else 2000)
         scenarios += gen_history_scenarios(rng)
-        scenarios += gen_combos(rng, 50 if quick else 1500)
+        scenarios += gen_combos(rng, 30 if quick else 1500)
     root = os.path.join(ctx["rundir"], "homes")
     os.makedirs(root)
     probe_path = os.path.join(ctx["rundir"], "probe.py")
@@ -763,7 +763,7 @@ def run(ctx):
                                 model=(model[i][:160] if model else None),
                                 impl={k: (o[k]["rc"], o[k]["out"][-40:]) for k in s["runs"] if k != "probe"}))
     # failing inputs first, so that a signature's headline is the failing input
-    all_viol.sort(key=lambda v: not v[3])
+    all_viol.sort(key=lambda v: (not v[3], "escapes at" not in v[1]))
     for sig, text, replay, found in all_viol:
         rep.violation(sig, text, replay, found_input=found)
     rep.coverage.update(dict(
@@ -773,7 +773,7 @@ def run(ctx):
              "%s single lines + random multi-line files with LF/CRLF/CR); currency line grammar (short, bad float, zero/negative/nan/inf, blank, unit clashes, "
              "duplicates, redirected / impossible currency-path, base-currency present/absent); history (texts incl. NUL and CRLF, 7 redirected path kinds x states, "
              "disabled / ill-typed save-history); random combinations.  Each scenario is observed through up to 4 real subprocesses; "
-             "non-trivial = at least one of the three files is not simply missing" % ("all" if not quick else "a 160-line sample of the"),
+             "non-trivial = at least one of the three files is not simply missing" % ("all" if not quick else "a 110-line sample of the"),
         exhaustive=False, exhaustive_slices=["5^3 file states", "all single config lines of the pool (thorough tier)"],
         samples=samples, outcome_histogram=hist_outcome, scenario_kinds=tags_count,
         traces_validated_against_impl=len(scenarios) if model else 0, disagreements=disagreements,
